@@ -57,7 +57,7 @@ def load_known():
 def matches(finding, prop, feat):
     """A finding's signature is a set of predicates over the features of the minimised replay."""
     sig = finding.get('signature', {})
-    if finding.get('property') != prop:
+    if prop not in [finding.get('property')] + finding.get('also', []):
         return False
     for key, want in sig.items():
         if key == 'clauses':
@@ -77,6 +77,15 @@ def matches(finding, prop, feat):
                 return False
         elif key == 'start_vector_class':
             if feat.get('start_vector_class') not in want:
+                return False
+        elif key == 'min_restarts_since_init':
+            if feat.get('restarts_since_init', 0) < want:
+                return False
+        elif key == 'min_expands':
+            if feat.get('expands', 0) < want:
+                return False
+        elif key == 'max_scale_log10':
+            if feat.get('scale_log10', 0) > want:
                 return False
         elif key == 'scalar':
             if feat.get('scalar') not in want:
@@ -183,7 +192,7 @@ def main():
             violations.append(c)
     # ---- committed examples of the known findings: do they still fail? ----
     for f in known.get('findings', []):
-        if f.get('property') != prop or not f.get('example_replay'):
+        if prop not in [f.get('property')] + f.get('also', []) or not f.get('example_replay'):
             continue
         ex = os.path.join(ROOT, f['example_replay'])
         r = sh([sim, '--replay', ex])
